@@ -30,11 +30,6 @@ theorem center_in_window (c peak0 peak1 : ℤ) (idx : ℤ) (hc : 1 ≤ c) (hidx 
 def wrapInt16 (v : ℤ) : ℤ := (v + 2 ^ 15) % 2 ^ 16 - 2 ^ 15
 def wrapUInt16 (v : ℤ) : ℤ := v % 2 ^ 16
 
-/-- the batch entry points return signed centres (repair of D2) … -/
-theorem centers_signed :
-    Gen.fast_centers_alloc = "np.zeros((len(frames), len(peaks), 2), dtype=np.int16)" ∧
-    Gen.full_centers_alloc = "np.zeros((len(frames), len(peaks), 2), dtype=np.int16)" := ⟨rfl, rfl⟩
-
 /-- … in which every value of magnitude below 2¹⁵ is stored as itself (no wrap-around) -/
 theorem center_no_wrap (v : ℤ) (h : -2 ^ 15 ≤ v ∧ v < 2 ^ 15) : wrapInt16 v = v := by
   unfold wrapInt16
@@ -422,14 +417,6 @@ theorem upsample_offset_bound (us k : ℤ) (hus : 1 ≤ us)
   rw [e, e']
   push_cast
   constructor <;> linarith
-
-/-- enabling upsampling changes only the refined positions: the upsampling loop assigns to
-`out_refineds` only (and reads `out_centers`) -/
-theorem upsample_only_refined :
-    Gen.us_loop = "corrspec = corrspecs[i] if corrspec_stack else corrspecs ; center = out_centers[i] ; if corrspec_stack: center = _unshift(center, peaks[i], crop_size) ; out_refineds[i] = refine_center_upsampling(corr_center, center, corrspec, frequencies, upsample_factor=upsample_factor) ; if corrspec_stack: out_refineds[i] = _shift(out_refineds[i], peaks[i], crop_size)"
-    ∧ (∀ u : ℤ, Gen.fast_upsample_on u = true ↔ 1 < u) ∧ Gen.fast_upsample_default = 20
-    ∧ (∀ u : ℤ, Gen.full_upsample_on u = true ↔ 1 < u) ∧ Gen.full_upsample_default = 20 := by
-  refine ⟨rfl, ?_, rfl, ?_, rfl⟩ <;> intro u <;> simp [Gen.fast_upsample_on, Gen.full_upsample_on]
 
 /-- kernel index safety is inherited: cropping never reads or writes out of bounds (C13) and the
 refinement cut-out stays inside the map (C03.refine_cut_in_bounds) -/
